@@ -78,14 +78,3 @@ def _sig_x690_loop(v):
     # the same walk over an indefinite length that does terminate (with an
     # IndexError / RecursionError) allocates megabytes on the way
     return v.get("kind") == "allocation-exceeds-memory-budget" and f.get("outcome") in ("IndexError", "RecursionError", "X690Error", "handled")
-
-
-@signature("engine-reboot-not-resynchronised")
-def _sig_reboot(v):
-    f = v.get("facts", {})
-    return (
-        v.get("kind") == "operation-fails-later-in-the-clients-life"
-        and f.get("agent_rebooted_since_discovery") is True
-        and "not-in-time-window" in (f.get("agent_verdicts") or [])
-        and f.get("exception") == "SnmpError"
-    )
